@@ -281,7 +281,8 @@ impl UnixStr {
             return None;
         }
         let this_buf = &self.0;
-        let other_buf = &other.0[..other.0.len() - 2];
+        // The needle is everything except the null terminator
+        let other_buf = &other.0[..other.0.len() - 1];
         buf_find(this_buf, other_buf)
     }
 
